@@ -24,7 +24,7 @@ M = [
  ('uniform_fill_off_by_one', ['C07', 'C08'], 'ixai/storage/uniform_reservoir_storage.py', "if self.stored_samples <= self.size:", "if self.stored_samples <= self.size + 1 and len(self._storage_x) <= self.size:"),
  # --- imputer
  ('marginal_randrange_minus_1', ['C04'], 'ixai/imputer/marginal_imputer.py', "        rand_idx = random.randrange(len(features))\n        sampled_instance", "        rand_idx = random.randrange(max(len(features) - 1, 1))\n        sampled_instance"),
- ('marginal_product_shared_row', ['C04', 'C06'], 'ixai/imputer/marginal_imputer.py', "        for feature_name in feature_subset:\n            rand_idx = random.randrange(len(features))\n", "        rand_idx = random.randrange(len(features))\n        for feature_name in feature_subset:\n"),
+ ('marginal_product_shared_row', ['C04'], 'ixai/imputer/marginal_imputer.py', "        for feature_name in feature_subset:\n            rand_idx = random.randrange(len(features))\n", "        rand_idx = random.randrange(len(features))\n        for feature_name in feature_subset:\n"),
 ]
 wt = '/tmp/wt/mkmut'
 subprocess.run(['git', '-C', '/repo', 'worktree', 'remove', '--force', wt], capture_output=True)
